@@ -218,7 +218,7 @@ def alphabet():
 WORDS = ['ab', 'ABC', 'x1', '12', '007', 'a-b', 'a_b', 'a.b', 'foo bar', ' lead', 'trail ', 'AbC', 'é', 'ñandú',
          '٣٤', '²', 'Ⅷ', 'x²', '1.5', '-3', '+1', '(x)', '[y]', '{z}', 'a|b', 'a^b', '^-', '-^', ']', '\\', 'a\\b',
          'tab\there', 'nl\nx', 'a b', ' ', ' ', '\x1c', '\x85', '２', '𝟎', '😀', 'ß', 'ǅ', '中', 'g7', 'f7', '1a',
-         'AB-12', 'CD-34', 'ab-12', 'cd-ef', '-12', 'x{3}', 'v{2}', '']
+         'AB-12', 'CD-34', 'ab-12', 'cd-ef', '-12', 'x{3}', 'v{2}', '', '100$', '25$', '7$', 'x{1}y', 'x{1}z', '12:', '34:', '56:ab', '78:cd']
 
 
 def rich_examples(rnd):
